@@ -67,6 +67,42 @@ func moduleStmt(g *yg.G) *yg.Stmt {
 		}
 	}
 	body := []*yg.Stmt{mk("namespace", "urn:m"), mk("prefix", "m")}
+	if g.Pick(4, "symbols") == 0 {
+		// a well-formed module whose definitions meet in the symbol tables, which are filled after the last statement
+		// has been read: names defined twice in one scope, names of an enclosing scope, names of built-in types, uses of
+		// names that are not defined
+		name := func() string { return symNames[g.Pick(len(symNames), "symname")] }
+		def := func() *yg.Stmt {
+			if g.Pick(3, "defkind") == 0 {
+				return mk("grouping", name(), leaf("gl"))
+			}
+			return mk("typedef", name(), mk("type", []string{"string", "int8", name()}[g.Pick(3, "deftype")]))
+		}
+		var scope func(depth int) []*yg.Stmt
+		scope = func(depth int) []*yg.Stmt {
+			var out []*yg.Stmt
+			for i, n := 0, g.Pick(3, "ndefs"); i < n; i++ {
+				out = append(out, def())
+			}
+			if g.Pick(3, "usesname") == 0 {
+				out = append(out, mk("uses", name()))
+			}
+			out = append(out, mk("leaf", fmt.Sprintf("sl%d", depth), mk("type", name())))
+			if depth < 3 && g.Pick(3, "deeper") != 0 {
+				kw := []string{"container", "list", "grouping", "rpc", "notification"}[g.Pick(5, "scopekw")]
+				kids := scope(depth + 1)
+				switch kw {
+				case "list":
+					kids = append([]*yg.Stmt{mk("key", "k"), leaf("k")}, kids...)
+				case "rpc":
+					kids = []*yg.Stmt{mk("input", "", kids...)}
+				}
+				out = append(out, mk(kw, fmt.Sprintf("sc%d", depth), kids...))
+			}
+			return out
+		}
+		return mk("module", "m", append(body, scope(0)...)...)
+	}
 	n := g.Pick(4, "nbody")
 	for i := 0; i < n; i++ {
 		if g.Pick(3, "typedstmt") == 1 {
@@ -89,6 +125,8 @@ func moduleStmt(g *yg.G) *yg.Stmt {
 
 var oddArgs = []string{"-", "+", " ", "..", "1..", "..1", "|", "1|", "|1", "a..b", "-.5..1", "1..2 | -", "--1", "-0", "00", "0x", "1e1", "9999999999999999999999", "min", "max", "min..max", "max..min",
 	"true", "false", "True", "current", "a b", "a/b", "/a:b", "/", "a:", ":a", "1a", "é", "\u00a0", "a\u00a0b", "2020-01-01", "2020-1-1", "2020-13-45", "unbounded", "*", "[", "(", "\\", "1", "0", "18", "19", "user", "system", "not-supported", "add", "replace", "delete", "k", "k k", "-", "- 1", "1 -", "+1", "1..-", "-..5", ".", "1.", ".1", "1.2.3"}
+
+var symNames = []string{"t", "t", "u", "g", "string", "uint8", "int64", "leafref", "instance-identifier", "boolean", "empty", "union", "bits", "binary", "decimal64", "enumeration", "identityref", "m:t", "String"}
 
 var hostile = []string{"\x00", "\xff", "\r", "\f", "\"", "'", "{", "}", ";", "+", "/*", "*/", "//", "\\", "\n", " ", "é", "\xc3", "a"}
 
